@@ -57,3 +57,21 @@ Proof.
   destruct (render_parse_full_lemma o OO _ _ _ _ WC WT R) as (m' & F & E).
   exists q1, q2, a1, a2, u1, u2, d1, d2, m'. auto 12.
 Qed.
+
+(* ... for every padding block size: the parsed message carries the padding option in addition *)
+Theorem trunc_parses_pad_lemma o pad m ms rp w :
+  org_ok o -> WfMsg o m -> wf_tsig m -> to_wire m o ms rp true pad = Ok w ->
+  exists q1 q2 a1 a2 u1 u2 d1 d2 m',
+    mq m = q1 ++ q2 /\ man m = a1 ++ a2 /\ mau m = u1 ++ u2 /\ mad m = d1 ++ d2 /\
+    (q2 <> [] -> a1 = [] /\ u1 = [] /\ d1 = []) /\ (a2 <> [] -> u1 = [] /\ d1 = []) /\ (u2 <> [] -> d1 = []) /\
+    from_wire w o po0 = Ok m' /\
+    msg_equiv_p pad m' (cut_msg m (if cut_before q2 a2 u2 then Z.lor (mflags m) fTC else mflags m) q1 a1 u1 d1).
+Proof.
+  intros OO WF WT H.
+  destruct (trunc_prefix_lemma _ _ _ _ _ _ H) as (q1 & q2 & a1 & a2 & u1 & u2 & d1 & d2 & EQ & EA & EU & ED & C1 & C2 & C3 & R).
+  set (fl := if cut_before q2 a2 u2 then Z.lor (mflags m) fTC else mflags m) in *.
+  assert (WC : WfMsg o (cut_msg m fl q1 a1 u1 d1)).
+  { eapply WfMsg_cut; try eassumption. unfold fl. destruct (cut_before q2 a2 u2); auto. }
+  destruct (render_parse_pad_lemma o OO pad _ _ _ _ WC WT R) as (m' & F & E).
+  exists q1, q2, a1, a2, u1, u2, d1, d2, m'. auto 12.
+Qed.
